@@ -170,6 +170,8 @@ func ParseContractFile(path string) (*ContractFile, error) {
 			d.Kind = text
 		case strings.HasPrefix(text, "mode "):
 			d.Kind, d.Arg = "mode", strings.TrimSpace(strings.TrimPrefix(text, "mode "))
+		case strings.HasPrefix(text, "replay-call "):
+			d.Kind, d.Expr = "replaycall", strings.TrimSpace(strings.TrimPrefix(text, "replay-call "))
 		case strings.HasPrefix(text, "nonnil "):
 			d.Kind, d.Expr = "nonnil", strings.TrimPrefix(text, "nonnil ")
 		case strings.HasPrefix(text, "assigns "):
